@@ -23,7 +23,6 @@ import (
 
 const lpPacketOverhead = 1 + 3
 const fragmentOverhead = 1 + 3
-const pitTokenOverhead = 1 + 1 + 6
 const congestionMarkOverhead = 3 + 1 + 8
 
 const (
@@ -189,8 +188,9 @@ func sendPacket(l *NDNLPLinkService, out dispatch.OutPkt) {
 	now := time.Now()
 
 	effectiveMtu := l.transport.MTU() - l.headerOverhead
-	if pkt.PitToken != nil {
-		effectiveMtu -= pitTokenOverhead
+	if len(out.PitToken) > 0 {
+		// The token attached below is the one of the outgoing packet
+		effectiveMtu -= 1 + 1 + len(out.PitToken)
 	}
 	if pkt.CongestionMark != nil {
 		effectiveMtu -= congestionMarkOverhead
